@@ -36,6 +36,14 @@ CLAIMED["C08"] = dict(cat="exploration",
    text="Seeded simulation of histories that produce packs through every path (backup, stale-index double backup, prune repack fast and re-encoding, v1->v2 repack-uncompressed, merge, rewrite, copy into a repository with other key/compression/pack size) over drawn blob-size mixes, compression levels and pack-size limits; a monitor decodes every pack and index file ever written (from the op log) with the simulator's own decoder: id = hash, trailer, header entries tile the body, every blob authenticates/decompresses/hashes to its id, index entries equal the header and size. Then a subset or all index files are removed, repair_index (+/- read_all) runs and every snapshot must read back equal to its model with check(read_data) clean.",
    ref="5 C08", note="Trusted: the simulator's decoder. Blob-less packs_to_delete entries (unindexed packs marked by prune) are exempt from the blob-list comparison, their size is still compared.",
    tech="deterministic simulation: write monitor with independent decoder over generated histories + index-loss/repair round trip")
+CLAIMED["C07"] = dict(cat="exploration",
+   text="Seeded simulation of backup/edit/backup histories with index reload before every backup (fresh handle), with and without parent, partly under seeded gate schedules: the data blobs in the packs written by each backup (parsed independently from the op log) must equal, as a set, the chunks of the current source that were not indexed in an unmarked pack before; no already-indexed tree is written again; an unchanged re-backup writes no pack, keeps the tree id and reports data_added = 0; an insert/delete inside a long random file re-uses later chunks; equal-bytes tree and data blobs are both kept (final read-back + check).",
+   ref="5 C07", note="The expected chunk set comes from the library's own chunk iterator (C06 checks the chunker). Duplicates of a NEW blob within one run are counted, not flagged (the statement promises sharing once the index has been reloaded).",
+   tech="deterministic simulation: generated edit histories, op-log accounting of uploaded blobs against a reference chunking")
+CLAIMED["C11"] = dict(cat="exploration",
+   text="Seeded simulation: parent generations of an evolving source, then the same current source is archived twice on forks of one frozen store, once with parent options (implicit/explicit/several parents, ignore-ctime, ignore-inode, skip-if-unchanged, parents whose data pack was dropped from index and store) and once with force; tree ids must be equal, the parent-based snapshot must read back equal to the source model, files with missing parent blobs must have been re-opened (SimSource open log), summary counters must equal the model's classification in the plain case, skip-if-unchanged must save iff the tree differs.",
+   ref="5 C11", note="The generator enforces the premise (no content change without mtime/ctime change). Edit scripts include type changes file<->dir<->symlink, renames, touches.",
+   tech="deterministic simulation: differential execution (parent-based vs forced) on forked store states + source open log")
 NOT_YET = {}
 NA = {
  "C09": "pure function of its arguments (snapshot list, keep options, explicit 'now'): no schedule, clock read, I/O, fault or history for a simulator to own; see DESIGN.md section 6",
